@@ -162,7 +162,11 @@ STATICS = {
     "P1": {("q", "a1"): True, ("q", "a2"): False, ("q", "b1"): True, ("k",): 2},
     "P2": {("q", "a1"): False, ("q", "a2"): True, ("q", "b1"): False, ("k",): H},
 }
-MODES = ["env", "P1", "P2"]
+# "P2|P1": the SAME environment holds problem P1 and its clone with P2's initial values (clone
+# keeps the name); every tree is first simplified relative to P1, then relative to the clone,
+# and judged against P2's statics - a simplifier must not remember another problem's values.
+STATICS["P2|P1"] = STATICS["P2"]
+MODES = ["env", "P1", "P2", "P2|P1"]
 STATIC_FLUENTS = ("q", "k")
 
 VALS = dict(U.VALS_FULL)
@@ -187,6 +191,13 @@ def shards(tier, seed):
 
 
 def _world(mode):
+    if mode == "P2|P1":
+        w = U.World(statics=STATICS["P1"])
+        w.problem2 = w.problem.clone()
+        for key, v in STATICS["P2"].items():
+            fe = w.em.FluentExp(w.ctx.fluents[key[0]], tuple(w.val(a) for a in key[1:]))
+            w.problem2.set_initial_value(fe, w.val(v))
+        return w
     return U.World(statics=STATICS[mode]) if mode != "env" else U.World()
 
 
@@ -206,12 +217,18 @@ class Simp:
 
         w = self.h.world
         self.s = Simplifier(w.env, w.problem) if self.mode != "env" else None
+        self.s_pre = None
+        if self.mode == "P2|P1":
+            self.s_pre = self.s
+            self.s = Simplifier(w.env, w.problem2)
 
     def renew(self):
         self.h.renew()
         self._mk()
 
     def simplify(self, e):
+        if self.s_pre is not None:
+            self.s_pre.simplify(e)
         return e.simplify() if self.s is None else self.s.simplify(e)
 
 
